@@ -14,6 +14,7 @@ func init() { register("C12", "exploration", runC12) }
 
 func runC12(r *engine.Run) {
 	r.Rule = "E1 over a finite space, enumerated completely in both tiers: 24 band names (14 + 10 deprecated aliases) x repeater x dwell-time; per configuration every uplink channel index (and -1, n, n+1), every (uplink DR, RX1 offset) in [-2..16] x [-2..9], and DevAddr(16) x beaconTime(6) for the ping-slot rule; for bands with dynamic channels the channel part is repeated after adding custom channels and disabling one. Oracle: the snapshot hook gives exact definedness and direction flags of data-rates; the region's rules (RX1 channel rule, RX1 data-rate formula, fixed ping-slot frequency or hopping rule) come from mc/spec/region.go. Non-trivial: a call that returned a value which was compared with the region's rule; distinct by construction."
+	bandGetterHistory(r)
 	r.Assume("DevAddr and beacon time use 16 x 6 value alphabets (all residues mod 8 of both, the 128 s period boundary, 2^31 s); everything else is finite and enumerated completely")
 	r.Assume("where the Regional Parameters define no closed formula (LR-FHSS rows, KR920/IN865 offsets 6-7) only the structural rules are judged: result defined for downlink, monotone over the positive offsets, at most one defined downlink data-rate per step")
 
@@ -181,6 +182,75 @@ func runC12(r *engine.Run) {
 		b.DisableUplinkChannelIndex(0)
 		checkChannels(c, cfg, b, "after disabling channel 0")
 	})
+
+	// histories (E2): custom channels whose frequency is fresh or already in the plan
+	// (the EU868-style 868.3 MHz DR0-5 + DR6 pair), toggles; every reached state is checked
+	for _, name := range bandNames {
+		cfg := bandCfg{name, false, lorawan.DwellTimeNoLimit}
+		init := snapOf(newBand(cfg))
+		if !init.SupportsExtraChannels {
+			continue
+		}
+		nStd := len(init.UplinkChannels)
+		base := init.UplinkChannels[0].Frequency
+		const maxAdds = 3
+		room := func(b band.Band) (int, bool) {
+			n := len(b.GetUplinkChannelIndices())
+			return n, n-nStd < maxAdds
+		}
+		xops := []engine.XOp{
+			{Name: "Add(fresh,cflist-range)", Do: func(obj interface{}) string {
+				b := obj.(band.Band)
+				n, ok := room(b)
+				if !ok {
+					return "skip"
+				}
+				return errS(b.AddChannel(base+10000000+uint32(n)*200000, init.CFListMinDR, init.CFListMaxDR))
+			}},
+			{Name: "Add(frequency-of-channel-1,DR6..6)", Do: func(obj interface{}) string {
+				b := obj.(band.Band)
+				if _, ok := room(b); !ok {
+					return "skip"
+				}
+				return errS(b.AddChannel(init.UplinkChannels[1%nStd].Frequency, 6, 6))
+			}},
+			{Name: "Add(frequency-of-last-channel,DR0..2)", Do: func(obj interface{}) string {
+				b := obj.(band.Band)
+				if _, ok := room(b); !ok {
+					return "skip"
+				}
+				s := snapOf(b)
+				return errS(b.AddChannel(s.UplinkChannels[len(s.UplinkChannels)-1].Frequency, 0, 2))
+			}},
+			{Name: "Toggle(0)", Do: func(obj interface{}) string {
+				b := obj.(band.Band)
+				if snapOf(b).UplinkChannels[0].Enabled {
+					return errS(b.DisableUplinkChannelIndex(0))
+				}
+				return errS(b.EnableUplinkChannelIndex(0))
+			}},
+			{Name: "Toggle(last)", Do: func(obj interface{}) string {
+				b := obj.(band.Band)
+				s := snapOf(b)
+				i := len(s.UplinkChannels) - 1
+				if s.UplinkChannels[i].Enabled {
+					return errS(b.DisableUplinkChannelIndex(i))
+				}
+				return errS(b.EnableUplinkChannelIndex(i))
+			}},
+		}
+		x := engine.XSpec{
+			Name: "rx1-channel-histories/" + string(name), New: func() interface{} { return newBand(cfg) }, Ops: xops,
+			Snap:  func(obj interface{}) string { return chanSnap(snapOf(obj.(band.Band))) },
+			Warm:  bandWarm,
+			Depth: 6,
+		}
+		x.CheckState = func(c *engine.Case, obj interface{}, path []int) {
+			checkChannels(c, cfg, obj.(band.Band), fmt.Sprintf("after %v", x.PathNames(path)))
+		}
+		res := r.Explore(x)
+		r.Guard(res.States > 20, "C12: channel histories of %s reach more than 20 states (%d)", name, res.States)
+	}
 
 	r.PartDims("ping-slot", []string{fmt.Sprintf("config:%d", len(cfgs)), "devaddr:16", "beacon time:6"}, uint64(len(cfgs)), func(c *engine.Case) {
 		cfg := cfgs[c.Index]
